@@ -131,7 +131,7 @@ Proof.
   assert (Hpost : forall (v : str) (out1 : list str),
     NW (let out2 := if indent || (str_eqb v [125] && p_indentClosingBrace p)
                     then out1 ++ [indentblock p v (level + 1)]
-                    else (if ends_with_space v then remove_last_if_S out1 else out1) ++ [v] in
+                    else (if ends_with_plain_space v then remove_last_if_S out1 else out1) ++ [v] in
         if alwaysS && one_of v c_calc then out2 ++ [[32]]
         else if one_of v c_comb then insert_before_last out2 (p_selectorCombinatorSpacer p) ++ [p_selectorCombinatorSpacer p]
         else if str_eqb v [41] && negb keepS then out2 ++ [[32]]
@@ -149,9 +149,9 @@ Proof.
   { intros v out1. cbv zeta.
     assert (H2 : NW (if indent || (str_eqb v [125] && p_indentClosingBrace p)
                      then out1 ++ [indentblock p v (level + 1)]
-                     else (if ends_with_space v then remove_last_if_S out1 else out1) ++ [v]) = NW out1 ++ nows v).
+                     else (if ends_with_plain_space v then remove_last_if_S out1 else out1) ++ [v]) = NW out1 ++ nows v).
     { destruct (indent || (str_eqb v [125] && p_indentClosingBrace p)); [now nw|].
-      destruct (ends_with_space v); now nw. }
+      destruct (ends_with_plain_space v); now nw. }
     set (out2 := if indent || (str_eqb v [125] && p_indentClosingBrace p) then _ else _) in *.
     destruct (alwaysS && one_of v c_calc); [nw; exact H2|].
     destruct (one_of v c_comb); [nw; exact H2|].
@@ -210,6 +210,12 @@ Proof.
   rewrite !E. now apply run_out_nows.
 Qed.
 
+Lemma ends_plain_false v : ends_with_space v = false -> ends_with_plain_space v = false.
+Proof.
+  unfold ends_with_space, ends_with_plain_space. destruct (rev v) as [|c [|b r]]; try easy.
+  intros ->. reflexivity.
+Qed.
+
 (* a word-like item is always followed by a non-empty white-space piece, even
    when every spacer is empty *)
 Definition word_like (v : str) : bool :=
@@ -230,7 +236,7 @@ Proof.
   unfold append. cbn [negb].
   match goal with H : one_of (c :: v') c_punct = false |- _ => rewrite H end. cbn [andb orb].
   match goal with H : str_eqb (c :: v') [125] = false |- _ => rewrite H end. cbn [andb orb].
-  match goal with H : ends_with_space (c :: v') = false |- _ => rewrite H end.
+  match goal with H : ends_with_space (c :: v') = false |- _ => rewrite (ends_plain_false _ H) end.
   match goal with H : one_of (c :: v') c_comb = false |- _ => rewrite H end.
   match goal with H : str_eqb (c :: v') [41] = false |- _ => rewrite H end. cbn [andb].
   match goal with H : str_eqb (c :: v') [44] = false |- _ => rewrite H end.
